@@ -6,11 +6,13 @@ import (
 	"fmt"
 	"io"
 	"log"
+	"math"
 	"math/rand"
 	"os"
 	"strings"
 
 	"perkeep.org/pkg/blob"
+	"perkeep.org/pkg/blobserver"
 
 	"verif.local/harness/ev"
 	"verif.local/harness/sto"
@@ -145,6 +147,46 @@ func leafSub(rng *rand.Rand) *sto.Spec {
 	return mem()
 }
 
+// withEmpty makes the 0-byte blob a member of every universe (under a seeded hash function).
+func withEmpty(rng *rand.Rand, u []sto.Blob) []sto.Blob {
+	h := []string{"sha224", "sha224", "sha1", "sha256"}[rng.Intn(4)]
+	for _, b := range u {
+		if len(b.Data) == 0 {
+			return u
+		}
+	}
+	return append(u, sto.Blob{Ref: sto.RefOf(h, nil), Data: []byte{}})
+}
+
+// bigHistory selects the histories whose universe also holds blobs above schema.MaxSchemaBlobSize+1
+// (up to the 16 MiB cap): one history of every single backend, every second history of a tree that
+// contains a cond store (its isSchema rule sniffs what it routes), and a quarter of the other compositions.
+func bigHistory(rng *rand.Rand, spec *sto.Spec, single bool, h int) bool {
+	q := rng.Intn(4) == 0
+	if hasKind(spec, "cond") {
+		return h%2 == 1
+	}
+	return h == 1 && (single || q)
+}
+
+// withBig adds 2-4 blobs around and above schema.MaxSchemaBlobSize+1.
+func withBig(rng *rand.Rand, u []sto.Blob) []sto.Blob {
+	kinds := []string{"random", "random", "json", "zeros"}
+	hashes := []string{"", "", "sha1", "sha256"}
+	add := func(size int) {
+		u = append(u, sto.BigBlob(rng, size, kinds[rng.Intn(len(kinds))], hashes[rng.Intn(len(hashes))]))
+	}
+	add(sto.SchemaCap + 2 + []int{0, 0, 1, rng.Intn(4096)}[rng.Intn(4)])
+	add(sto.SchemaCap + 2 + rng.Intn(4<<20))
+	if rng.Intn(2) == 0 {
+		add(sto.SchemaCap + rng.Intn(2)) // controls: the largest sizes a sniffer buffers completely
+	}
+	if rng.Intn(6) == 0 {
+		add(blobserver.MaxBlobSize - []int{0, 0, 1, rng.Intn(1 << 20)}[rng.Intn(4)])
+	}
+	return u
+}
+
 func hasKind(s *sto.Spec, kind string) bool {
 	if s.Kind == kind {
 		return true
@@ -171,16 +213,17 @@ func run(r *ev.Run) {
 	defer os.RemoveAll(root)
 
 	type job struct {
-		spec *sto.Spec
-		n    int
+		spec   *sto.Spec
+		n      int
+		single bool
 	}
 	var jobs []job
 	for _, s := range singles(r.Thorough()) {
-		jobs = append(jobs, job{s, r.Pick(6, 12)})
+		jobs = append(jobs, job{s, r.Pick(6, 12), true})
 	}
 	crng := r.Rand("compositions")
 	for i := 0; i < r.Pick(40, 300); i++ {
-		jobs = append(jobs, job{composition(crng, 3), r.Pick(2, 2)})
+		jobs = append(jobs, job{composition(crng, 3), r.Pick(2, 2), false})
 	}
 	caseNo := 0
 	for _, j := range jobs {
@@ -190,14 +233,21 @@ func run(r *ev.Run) {
 			if !r.Only(id + ";") {
 				continue
 			}
-			runHistory(r, root, id, j.spec, h)
+			runHistory(r, root, id, j.spec, j.single, h)
 		}
 	}
 	r.Require("backend_kinds", "memory", "localdisk", "diskpacked", "blobpacked", "encrypt", "replica", "shard", "cond", "overlay", "namespace", "proxycache", "union")
-	r.Require("events", "pack-rollover", "zip-packed", "reopen", "remove", "re-receive", "refused-remove")
+	r.Require("events", "pack-rollover", "zip-packed", "reopen", "remove", "re-receive", "refused-remove",
+		"big-blob-received", "big-blob-through-cond")
+	// every root kind that implements blob.SubFetcher saw the documented boundary ranges on present blobs
+	for _, kind := range []string{"memory", "localdisk", "diskpacked", "blobpacked", "proxycache"} {
+		for _, cat := range []string{"off==size", "len==0", "empty-blob", "clipped", "off>size", "huge-length"} {
+			r.Require("range_edges", kind+":"+cat)
+		}
+	}
 }
 
-func runHistory(r *ev.Run, root, id string, spec *sto.Spec, h int) {
+func runHistory(r *ev.Run, root, id string, spec *sto.Spec, single bool, h int) {
 	rng := r.Rand(fmt.Sprintf("history/%s/%s/%d", id, spec, h))
 	dir, err := os.MkdirTemp(root, "h")
 	if err != nil {
@@ -212,9 +262,16 @@ func runHistory(r *ev.Run, root, id string, spec *sto.Spec, h int) {
 		return
 	}
 	defer b.Close()
+	defer b.ReleaseMemory() // the process-global hub map keeps every tree reachable
 	markKinds(r, spec)
 
 	universe := sto.Universe(rng, sto.GenOpts{N: 10 + rng.Intn(14), Hashes: true})
+	universe = withEmpty(rng, universe)
+	big := bigHistory(rng, spec, single, h)
+	if big {
+		universe = withBig(rng, universe)
+	}
+	rng.Shuffle(len(universe), func(i, j int) { universe[i], universe[j] = universe[j], universe[i] })
 	packing := hasKind(spec, "blobpacked") && h%2 == 0
 	var fileBlobs []sto.Blob
 	if packing {
@@ -239,6 +296,7 @@ func runHistory(r *ev.Run, root, id string, spec *sto.Spec, h int) {
 		r.Violation(sig, fmt.Sprintf("[%s] %s (after %d ops)", spec, what, len(rec.Ops)), rec)
 	}
 	c := sto.NewChecker(b.S, label, b.Caps, universe, report)
+	c.StrictRange = true
 
 	// read-only parts are pre-populated directly
 	var preloaded []sto.Blob
@@ -256,6 +314,10 @@ func runHistory(r *ev.Run, root, id string, spec *sto.Spec, h int) {
 	}
 
 	nops := 40 + rng.Intn(r.Pick(60, 160))
+	if big {
+		nops = 40 + rng.Intn(40)
+		r.Count("big_blob_histories", 1)
+	}
 	removed := map[blob.Ref]bool{}
 	var nRemove, nReRecv, nEnum, nRefuse int
 	log := func(op, a, a2 string) { rec.Ops = append(rec.Ops, opRec{op, a, a2}) }
@@ -284,6 +346,14 @@ func runHistory(r *ev.Run, root, id string, spec *sto.Spec, h int) {
 				r.Note("events", "duplicate-receive")
 			}
 			c.Receive(bl)
+			if len(bl.Data) > sto.SchemaCap+1 && c.LastErr() == nil {
+				r.Count("big_blob_receives", 1)
+				r.Note("events", "big-blob-received")
+				if hasKind(spec, "cond") {
+					r.Note("events", "big-blob-through-cond")
+				}
+				r.Note("big_blob_backends", spec.Kind)
+			}
 		case k < 42:
 			bl := pick()
 			log("fetch", bl.String(), "")
@@ -295,6 +365,11 @@ func runHistory(r *ev.Run, root, id string, spec *sto.Spec, h int) {
 			if n > 0 {
 				off = rng.Int63n(n + 2)
 				ln = rng.Int63n(n + 3)
+			}
+			if rng.Intn(3) == 0 {
+				// directed boundary: offset at / around the end, empty and oversized lengths
+				off = []int64{0, n, n, n + 1, n / 2}[rng.Intn(5)]
+				ln = []int64{0, 0, 1, n, n + 5, math.MaxInt64 - off, math.MaxInt64}[rng.Intn(7)]
 			}
 			log("subfetch", bl.String(), fmt.Sprintf("%d+%d", off, ln))
 			c.SubFetch(bl, off, ln)
@@ -379,6 +454,10 @@ func runHistory(r *ev.Run, root, id string, spec *sto.Spec, h int) {
 	r.Eval(c.Evals)
 	for op, n := range c.Ops {
 		r.Count("ops_"+op, n)
+	}
+	for cat, n := range c.Cats {
+		r.Count("range_"+cat, n)
+		r.Note("range_edges", spec.Kind+":"+cat)
 	}
 	r.Count("histories", 1)
 	r.Note("backends", spec.String())
